@@ -23,6 +23,7 @@ package signaling
 
 import (
 	"encoding/base64"
+	"errors"
 	"fmt"
 
 	"github.com/gorilla/securecookie"
@@ -51,6 +52,10 @@ func (s *protoSerializer) Deserialize(src []byte, dst interface{}) error {
 const (
 	privateSessionName = "private-session"
 	publicSessionName  = "public-session"
+)
+
+var (
+	errSessionIdNotCanonical = errors.New("session id is not canonically encoded")
 )
 
 type SessionIdCodec struct {
@@ -97,7 +102,23 @@ func (c *SessionIdCodec) EncodePublic(sessionData *SessionIdData) (string, error
 	return reverseSessionId(encoded)
 }
 
+// isCanonicalSessionId checks that the id is the canonical base64 encoding of
+// its bytes. The base64 decoder ignores newlines and unused padding bits, so
+// without this check modified strings would still decode to a valid session id.
+func isCanonicalSessionId(s string) bool {
+	decoded, err := base64.URLEncoding.DecodeString(s)
+	if err != nil {
+		return false
+	}
+
+	return base64.URLEncoding.EncodeToString(decoded) == s
+}
+
 func (c *SessionIdCodec) DecodePrivate(encodedData string) (*SessionIdData, error) {
+	if !isCanonicalSessionId(encodedData) {
+		return nil, errSessionIdNotCanonical
+	}
+
 	var data SessionIdData
 	if err := c.cookie.Decode(privateSessionName, encodedData, &data); err != nil {
 		return nil, err
@@ -107,6 +128,10 @@ func (c *SessionIdCodec) DecodePrivate(encodedData string) (*SessionIdData, erro
 }
 
 func (c *SessionIdCodec) DecodePublic(encodedData string) (*SessionIdData, error) {
+	if !isCanonicalSessionId(encodedData) {
+		return nil, errSessionIdNotCanonical
+	}
+
 	encodedData, err := reverseSessionId(encodedData)
 	if err != nil {
 		return nil, err
